@@ -33,6 +33,7 @@ var c20Mutations = []string{
 	"switch_unknown_hosts", "switch_garbage", "switch_to_cascade", "maintenance_garbage", "recovery_unknown_host", "recovery_of_master",
 	"ha_nodes_deleted", "last_switch_garbage", "optimization_unknown_host", "ha_node_config_garbage", "cascade_config_garbage", "move_master_to_cascade",
 	"recovery_mark_master_with_stuck_commits", "resetup_status_garbage",
+	"daemons_restarted_in_maintenance_during_outage", "daemons_restarted_in_maintenance_during_outage_then_switch",
 }
 
 var c20States = []string{"steady", "master_down", "replica_down", "zk_lost_on_manager", "zk_outage", "maintenance", "sql_errors", "sql_hangs"}
@@ -122,10 +123,13 @@ func c20Run(u *Unit) {
 	case "switch-wreck":
 		// half-done switchovers and failovers with dying managers and failing statements: the C06/C07
 		// generators produce them; their own monitors ride along, C20 looks at crashes and leaks
-		if u.Idx%2 == 0 {
+		switch u.Idx % 3 {
+		case 0:
 			c06Run(u)
-		} else {
+		case 1:
 			c07Run(u)
+		default:
+			c09Run(u) // daemon restarts during maintenance and coordination outages
 		}
 		return
 	}
@@ -361,6 +365,27 @@ func c20Mutate(sc *Scen, sp c20Spec, hosts []string) {
 		for _, h := range hosts[1:] {
 			s.W.Manual(h, "stop io thread", func(x *world.Server) { x.IORun = false })
 		}
+	case "daemons_restarted_in_maintenance_during_outage", "daemons_restarted_in_maintenance_during_outage_then_switch":
+		// every daemon restarts while the coordination service is away and the maintenance marker file exists,
+		// then maintenance is left
+		put("maintenance", fmt.Sprintf(`{"initiated_by":"op","initiated_at":%q,"mysync_paused":false,"should_leave":false,"mode":"full"}`, time.Now().Format(time.RFC3339Nano)))
+		time.Sleep(20 * time.Second)
+		s.ZKOutage(true)
+		var ins []*Inst
+		for _, h := range s.AllHosts() {
+			ins = append(ins, s.Kill(h))
+		}
+		for i, in := range ins {
+			<-in.Done()
+			s.StartInst(s.AllHosts()[i], time.Duration(i)*200*time.Millisecond)
+		}
+		time.Sleep(25 * time.Second)
+		s.ZKOutage(false)
+		time.Sleep(10 * time.Second)
+		put("maintenance", fmt.Sprintf(`{"initiated_by":"op","initiated_at":%q,"mysync_paused":true,"should_leave":true,"mode":"full"}`, time.Now().Format(time.RFC3339Nano)))
+		if sp.Mutation == "daemons_restarted_in_maintenance_during_outage_then_switch" {
+			fileSwitch(sc, "", hosts[1], "manual", "switchover", "operator")
+		}
 	case "resetup_status_garbage":
 		put("resetup_status/"+hosts[1], `"never"`)
 		s.W.Manual(hosts[1], "offline", func(x *world.Server) { x.Offline = true })
@@ -379,5 +404,5 @@ func init() {
 			}
 			return f
 		},
-		Rule: "families: (dangling) every coordination-tree mutation of a list of 31 (unregistered master / replica / stream_from, unknown hosts, malformed or empty values of every key mysync reads) applied to a running cluster in one of 8 daemon/server states, then 300 iterations; (soak) random crashes, isolations, coordination cuts and outages, daemon kills and switch requests for 40-80 steps; (switch-wreck) the C06/C07 generators' half-done switchovers with dying managers and failing statements; (first-use) servers becoming reachable just before coinciding ticks with delayed version/uuid queries; a share of all units and all first-use units run under the race detector; oracles: child death with a mysync frame = crash, goroutine/connection counts over the run + goroutines alive at bubble tear-down = leak, race reports de-duplicated by outermost mysync functions; distinct by (family, mutation, state, shape)"})
+		Rule: "families: (dangling) every coordination-tree mutation of a list of 31 (unregistered master / replica / stream_from, unknown hosts, malformed or empty values of every key mysync reads) applied to a running cluster in one of 8 daemon/server states, then 300 iterations; (soak) random crashes, isolations, coordination cuts and outages, daemon kills and switch requests for 40-80 steps; (switch-wreck) the C06/C07/C09 generators' half-done switchovers with dying managers and failing statements and daemon restarts during maintenance and coordination outages; (first-use) servers becoming reachable just before coinciding ticks with delayed version/uuid queries; a share of all units and all first-use units run under the race detector; oracles: child death with a mysync frame = crash, goroutine/connection counts over the run + goroutines alive at bubble tear-down = leak, race reports de-duplicated by outermost mysync functions; distinct by (family, mutation, state, shape)"})
 }
